@@ -199,6 +199,9 @@ class Prog:
                             gap = ' ' + gap
                     elif k == 'glued' or (k == 'punct' and t.isalpha()):
                         gap = ''                     # glued to the previous token: `jz`, `10h`
+                    elif k == 'arg' and pieces[j - 1][0] == 'punct' and (pieces[j - 1][1][-1].isalnum() or pieces[j - 1][1][-1] == '_') \
+                            and t[:1] and (t[0].isalnum() or t[0] == '_'):
+                        gap = ''                     # `r7` is ONE token: a blank inside it is not a blank between tokens
                     else:
                         # a blank may be inserted at a token boundary where the rule has no whitespace part to satisfy
                         gap = extra if k != 'punct' or pieces[j - 1][0] not in ('lit', 'mtok') else ''
@@ -371,9 +374,17 @@ def gen_prog(rng, size_static=True, collide=False, boundary=False, tame=True):
 
     pend_l, pend_c = list(labels), list(consts)
     pend_b = list(bools)
+    # constants holding an assertion (void when it holds; a failed one is an error on the final pass, F77)
+    pend_v = ['v%d' % i for i in range(rng.weighted([(0, 85), (1, 12), (2, 3)]))]
 
     def bool_expr():
         return '%s %s %d' % (rng.choice(allsyms), rng.choice(['<', '>', '<=', '>=', '==', '!=']), rng.below(24))
+    def assert_expr():
+        c = bool_expr() if rng.chance(0.7) else '$ %s %d' % (rng.choice(['<', '>=']), rng.below(12))
+        if rng.chance(0.6):
+            # mostly true
+            c = '%s %s %d' % (rng.choice(allsyms + ['$']), rng.choice(['<', '<=']), 200 + rng.below(100))
+        return 'assert(%s)' % c if rng.chance(0.7) else 'assert(%s, "m")' % c
     n = rng.range(3, 12)
     for i in range(n):
         k = rng.below(100)
@@ -383,6 +394,8 @@ def gen_prog(rng, size_static=True, collide=False, boundary=False, tame=True):
             c = pend_c.pop(0); p.names.append(c); p.items.append(('const', c, expr()))
         elif pend_b and k < 40:
             c = pend_b.pop(0); p.names.append(c); p.items.append(('const', c, bool_expr()))
+        elif pend_v and k < 43:
+            c = pend_v.pop(0); p.names.append(c); p.items.append(('const', c, assert_expr()))
         elif k < 75:
             ri = rng.below(len(isa.rules))
             r = isa.rules[ri]
@@ -404,6 +417,8 @@ def gen_prog(rng, size_static=True, collide=False, boundary=False, tame=True):
         p.names.append(c); p.items.append(('const', c, expr()))
     for c in pend_b:
         p.names.append(c); p.items.append(('const', c, bool_expr()))
+    for c in pend_v:
+        p.names.append(c); p.items.append(('const', c, assert_expr()))
     return p
 
 
